@@ -250,8 +250,7 @@ def r2(ctx):
         def hook(tok, node, st, fr, sid, t=t, results=results):
             if tok[0] != "E" or sid != "main" or not isinstance(node, ast.Call) or len(node.args) < 2:
                 return
-            val = node.args[1]
-            if not (isinstance(val, ast.Call) and isinstance(val.func, ast.Name) and val.func.id == "len"):
+            if not t.sym(node.args[1], st, fr).startswith("len("):
                 return
             bound = tok[1] + ".max_val"
             ok = _bounded(t, st.guards, bound, ("<=", "<"), lambda e: e == bound)
@@ -428,8 +427,24 @@ def r2_truncation(ctx):
         seen: List[int] = []
 
         def pre(stmt, st, fr, t=t, bad=bad, seen=seen, ci=ci):
-            for n, sc in _scoped_nodes(t, stmt, st, fr):
+            for n, sc in _scoped_nodes(t, stmt.iter if isinstance(stmt, ast.For) else stmt, st, fr):
                 cut = None
+                if isinstance(n, ast.Call) and isinstance(n.func, ast.Name) and n.func.id == "zip" and len(n.args) >= 2:
+                    # zip() stops at the shorter operand: walking a spec table in step with the value needs the
+                    # two lengths to be equal, or the surplus is silently dropped
+                    syms_ = [t.sym(a, sc, fr) for a in n.args]
+                    tables = [x for x in syms_ if SPEC_PATH.fullmatch(x)]
+                    data = [x for x in syms_ if x.startswith("<value>")]
+                    if tables and data:
+                        seen.append(1)
+                        ok = False
+                        for g in st.guards:
+                            for l, op, r, en, _ in _guard_rels(t, g):
+                                if not en and op == "==" and {l, r} == {f"len({data[0]})", f"len({tables[0]})"}:
+                                    ok = True
+                        if not ok:
+                            bad.append(f"{norm(n)} drops the surplus of {data[0]}")
+                    continue
                 if isinstance(n, ast.Subscript) and isinstance(n.slice, ast.Slice) and n.slice.upper is not None \
                         and isinstance(n.ctx, ast.Load):
                     cut = n.value
@@ -453,7 +468,7 @@ def r2_truncation(ctx):
         t.pre_stmt_hooks.append(pre)
         t.run(s, sp, value_param=vp)
         ctx.stats["C08.R2.truncating operations on values"] = ctx.stats.get("C08.R2.truncating operations on values", 0) + len(seen)
-        ctx.ob("C08.R2", f"{label}.serialize: nothing silently cuts the value (slice / struct 's' pack) without a "
+        ctx.ob("C08.R2", f"{label}.serialize: nothing silently cuts the value (slice / struct 's' pack / zip against a spec table) without a "
                          f"rejecting length test of that same representation", not bad, s.where,
                "; ".join(sorted(set(bad))) + ": an over-long value would be written truncated instead of rejected")
 
@@ -705,7 +720,10 @@ def _calc_terms(repo, ci: ClassInfo, cs: FuncInfo):
         st.env[prm.arg] = "@"
     fr = t._frame(cs, ci, cs.module, 0, (cs.full,))
     out = set()
-    calls = [c for c in find_calls(cs.node, "calc_size", into_defs=False) if isinstance(c.func, ast.Attribute)]
+    from .common import class_methods_reachable
+    calls = [c for f_ in class_methods_reachable(repo, cs, depth=2) if f_.name != "deserialize"
+             for c in find_calls(f_.node, "calc_size", into_defs=False) if isinstance(c.func, ast.Attribute)
+             and not (isinstance(c.func.value, ast.Name) and c.func.value.id in ("self", "cls") and f_ is not cs)]
     if calls:
         for c in calls:
             recv = c.func.value
@@ -714,7 +732,7 @@ def _calc_terms(repo, ci: ClassInfo, cs: FuncInfo):
             if isinstance(recv, ast.Name):
                 # bound by an enclosing loop / comprehension?
                 n = c
-                while n is not None and n is not cs.node:
+                while n is not None and not isinstance(n, (ast.FunctionDef, ast.AsyncFunctionDef)):
                     gens = []
                     if isinstance(n, ast.For):
                         gens = [(n.target, n.iter)]
@@ -768,45 +786,82 @@ def r4(ctx):
     cls = repo.cls("BufferReader", SER)
     rb = repo.fn("BufferReader.read_bytes", SER)
     sk = repo.fn("BufferReader.seek", SER)
+    # the reader's fields by role, not by name: position = what tell() returns, length = len(<buffer>) taken
+    # in __init__
+    tell = repo.lookup_method(cls, "tell")
+    init = repo.lookup_method(cls, "__init__")
+    ctx.require(tell is not None and init is not None, "C08.R4: BufferReader.tell / __init__ vanished")
+    pos_paths = {ap(r.value) for r in walk(tell.node) if isinstance(r, ast.Return) and r.value is not None}
+    pos_paths = {p_ for p_ in pos_paths if p_ and p_.startswith("self.")}
+    ctx.require(len(pos_paths) == 1, f"C08.R4: BufferReader.tell does not return one position field ({sorted(pos_paths)})")
+    POS = next(iter(pos_paths))
+    len_paths = {s_.path for s_ in stores(init.node, into_defs=False) if s_.kind == "assign" and s_.path.startswith("self.")
+                 and isinstance(s_.value, ast.Call) and ap(s_.value.func) == "len"}
+    ctx.require(len(len_paths) == 1, f"C08.R4: BufferReader.__init__ does not record one buffer length ({sorted(len_paths)})")
+    LEN = next(iter(len_paths))
+
+    def position_moves(f: FuncInfo):
+        """(node at which the move is decided, names of the new position there): direct stores, or calls of
+        helper methods that store one of their parameters into the position field."""
+        out = []
+        for s_ in stores(f.node, into_defs=False):
+            if s_.path == POS and s_.kind in ("assign", "augassign"):
+                out.append((s_.node, {ap(s_.value) or norm(s_.value)}))
+        for c in [n for n in walk(f.node) if isinstance(n, ast.Call)]:
+            fn_ = c.func
+            if isinstance(fn_, ast.Attribute) and isinstance(fn_.value, ast.Name) and fn_.value.id == "self":
+                m = repo.lookup_method(cls, fn_.attr)
+                if m is None or m is f or m.name in ("seek", "read_bytes"):
+                    continue
+                prm = _params(m)
+                for s_ in stores(m.node, into_defs=False):
+                    if s_.path == POS and s_.kind == "assign" and isinstance(s_.value, ast.Name) and s_.value.id in prm:
+                        k = prm.index(s_.value.id)
+                        arg = c.args[k] if k < len(c.args) else kw(c, s_.value.id)
+                        if arg is not None:
+                            out.append((c, {ap(arg) or norm(arg)}))
+        return out
+    helper_ok = set()
     for f in (rb, sk):
-        pos_stores = [s for s in stores(f.node, into_defs=False) if s.path == "self._pos" and s.kind == "assign"]
-        ctx.require(pos_stores, f"C08.R4: {f.qual} no longer stores self._pos")
-        for s in pos_stores:
-            names = {ap(s.value) or norm(s.value)}
-            bf = _bound_facts(s.node, f.node, names)
-            upper = [b for b in bf if b[0] in ("<=", "<") and b[1] == "self._len"]
+        moves = position_moves(f)
+        ctx.require(moves, f"C08.R4: {f.qual} no longer moves the read position ({POS})")
+        for node, names in moves:
+            if isinstance(node, ast.Call):
+                helper_ok.add(node.func.attr)
+            bf = _bound_facts(node, f.node, names)
+            upper = [b for b in bf if b[0] in ("<=", "<") and b[1] == LEN]
             params = set(_params(f))
             if f is rb:
                 ok_u = any(all(e in params for e in b[2]) for b in upper)
                 opt_out = sorted({e for b in upper for e in b[2]})
-                ctx.ob("C08.R4", "BufferReader.read_bytes: position store bounded above by self._len (raise)", ok_u,
-                       ctx.w(f, s.node), "a read past the end would silently return a short slice")
+                ctx.ob("C08.R4", "BufferReader.read_bytes: position move bounded above by the buffer length (raise)", ok_u,
+                       ctx.w(f, node), "a read past the end would silently return a short slice")
                 ctx.ob("C08.R4", "BufferReader.read_bytes: the bound can only be waived by the check_len parameter",
-                       opt_out in ([], ["check_len"]), ctx.w(f, s.node), f"waivers {opt_out}")
+                       opt_out in ([], ["check_len"]), ctx.w(f, node), f"waivers {opt_out}")
             else:
                 ok_u = any(not b[2] for b in upper)
                 ok_l = any(b[0] in (">=", ">") and b[1] in ("0", "-1") and not b[2] for b in bf)
-                ctx.ob("C08.R4", "BufferReader.seek: position store bounded above by self._len (raise)", ok_u,
-                       ctx.w(f, s.node))
-                ctx.ob("C08.R4", "BufferReader.seek: position store bounded below by 0 (raise)", ok_l, ctx.w(f, s.node))
+                ctx.ob("C08.R4", "BufferReader.seek: position move bounded above by the buffer length (raise)", ok_u,
+                       ctx.w(f, node))
+                ctx.ob("C08.R4", "BufferReader.seek: position move bounded below by 0 (raise)", ok_l, ctx.w(f, node))
     # the slice itself is taken under the same bound
-    slices = [n for n in walk(rb.node) if isinstance(n, ast.Subscript) and ap(n.value) == "self._buffer"
-              and isinstance(n.slice, ast.Slice)]
-    ctx.require(slices, "C08.R4: read_bytes no longer slices self._buffer")
+    slices = [n for n in walk(rb.node) if isinstance(n, ast.Subscript) and (ap(n.value) or "").startswith("self.")
+              and isinstance(n.slice, ast.Slice) and isinstance(n.ctx, ast.Load)]
+    ctx.require(slices, "C08.R4: read_bytes no longer slices the buffer")
     for sl in slices:
         up = sl.slice.upper
         names = {ap(up) or norm(up)} if up is not None else set()
         bf = _bound_facts(sl, rb.node, names)
-        ctx.ob("C08.R4", "BufferReader.read_bytes: buffer slice end bounded above by self._len (raise)",
-               any(b[0] in ("<=", "<") and b[1] == "self._len" for b in bf), ctx.w(rb, sl))
+        ctx.ob("C08.R4", "BufferReader.read_bytes: buffer slice end bounded above by the buffer length (raise)",
+               any(b[0] in ("<=", "<") and b[1] == LEN for b in bf), ctx.w(rb, sl))
     # no other method of the reader moves the position
     for m in cls.methods.values():
-        if m.name in ("__init__", "seek", "read_bytes"):
+        if m.name in ("__init__", "seek", "read_bytes") or m.name in helper_ok:
             continue
-        for s in stores(m.node, into_defs=True):
-            if s.path == "self._pos":
-                ctx.ob("C08.R4", f"BufferReader.{m.name}: moves self._pos outside seek/read_bytes", False, ctx.w(m, s.node),
-                       "position written without the range check")
+        for s_ in stores(m.node, into_defs=True):
+            if s_.path == POS:
+                ctx.ob("C08.R4", f"BufferReader.{m.name}: moves the read position outside seek/read_bytes", False,
+                       ctx.w(m, s_.node), "position written without the range check")
     # call sites waiving the check must be peeks
     n_sites = 0
     for f in repo.all_funcs:
@@ -1016,6 +1071,49 @@ def r7(ctx):
     ctx.floor("C08.R7", "flagged None short-cuts in writers that forward the value", n, 2)
 
 
+def _ctx_only(text) -> bool:
+    return not any(m in str(text) for m in ("<value>", "<stream", "?", "<elem>", "<idx>", "<loopvar>", "<exc>",
+                                            "<closure>", "<lambda>", "<pos>", "{"))
+
+
+def _norm_kind(base: str, kind):
+    """Known-equivalent ways of asking the same thing of the same expression."""
+    if kind == ("eq", "0"):
+        return "truthy"
+    if kind == ("gt", "0") and base.startswith("(") and " & " in base:
+        return "truthy"                      # mask test: (x & m) > 0  ==  (x & m) != 0  for a non-negative mask
+    if kind == "none-test" and SPEC_PATH.fullmatch(base):
+        return "truthy"                      # spec attributes are None or an object
+    return kind
+
+
+def r9(ctx):
+    repo = ctx.repo
+    ctx.rule("C08.R9", "sibling gates agree: when serialize and deserialize both branch on the same expression of the "
+                       "spec object / parse context, they ask the same question of it (a condition strengthened on one "
+                       "side only desynchronises what is written from what is read)")
+    n = 0
+    for label, ci, s, d, sp, dp in discover_pairs(ctx):
+        if label in R1_EXCEPTIONS:
+            continue
+        sides = []
+        for fi, prm, vp in ((s, sp, (_params(s) or [None])[0] if sp is not None else None), (d, dp, None)):
+            t = Tracer(repo, ci, None)
+            t.run(fi, prm, value_param=vp)
+            by_base: Dict[str, Set] = {}
+            for base, kind in t.gates:
+                if _ctx_only(base) and _ctx_only(kind) and base not in ("True", "False", "None"):
+                    by_base.setdefault(base, set()).add(_norm_kind(base, kind))
+            sides.append(by_base)
+        w, r = sides
+        for base in sorted(set(w) & set(r)):
+            n += 1
+            ctx.ob("C08.R9", f"{label}: both directions ask the same question of {base}", w[base] == r[base], s.where,
+                   f"writer tests {sorted(map(str, w[base]))}, reader tests {sorted(map(str, r[base]))}: for contexts "
+                   f"where the answers differ the reader expects a field that was not written (or skips one that was)")
+    ctx.floor("C08.R9", "expressions gated on both sides", n, 4)
+
+
 def run(ctx):
     r1(ctx)
     r2(ctx)
@@ -1026,6 +1124,7 @@ def run(ctx):
     r6(ctx)
     r7(ctx)
     r8(ctx)
+    r9(ctx)
     ctx.assume("read(write(v)) == v over generated spec trees and values is not decided statically; branch "
                "conditions of the two directions are not compared (a flipped test is a value-level fault)")
     ctx.assume("comprehension / generator events are placed where the comprehension is written; closures returned "
